@@ -5,6 +5,14 @@ the hypotheses (`Fmt.Ok`, `FiniteScaled`, `InverseDomain`, `IsDouble`, `ArrayDom
 `clamp`) are in Lemmas/C16.lean.  The specification predicates (`SpecFp`, `SpecFix`, `SpecMono`,
 `Exact53`, in the model file) are the ones the harness evaluates on the implementation's outputs.
 
+What the argument is:  every theorem is about the REAL NUMBER the argument denotes, the exact dyadic
+rational `v.toRat = m * 2^e` (`specFp_iff_rat` reads the rule over the rationals) - not about the
+Python / NumPy type that carries it.  A python float, a NumPy float16 / float32 / float64 scalar, an
+exactly representable int or Fraction, or an element of an array of any float dtype that denote the same
+number must convert to the same result (the harness sends the exact (m, e) of whatever object it passes;
+`IsDouble` / `|m| < 2^p` only bound the significand).  Likewise the integer arguments of the to-float
+direction are the integers the word denotes, whatever NumPy integer type holds it.
+
 Reading guide:  v = (m, e) is the double m * 2^e;  scaledNum / scaledDen is the exact scaled value
 v * 2^n_frac as a fraction;  `floatToFp` = float_to_fp, `npFloatToFix` = NumpyFloatToFixConverter
 (pinned code), `npFloatToFixRepaired` (after fixes/c16-saturate-64bit.diff), `floatToFix` =
